@@ -471,12 +471,16 @@ func (c connectStreamClientProtocol) encodeEnd(op *operation, end *responseEnd, 
 		buffer.WriteString(`{"error": {"code": "internal", "message": ` + strconv.Quote(err.Error()) + `}}`)
 	}
 	// TODO: compress?
-	length := buffer.Len()
-	limit := op.methodConf.maxMsgBufferBytes
-	if length > int(limit) {
-		return nil
+	if limit := op.methodConf.maxMsgBufferBytes; buffer.Len() > int(limit) {
+		// The end of the stream must be signalled in any case: without it the
+		// client sees a truncated response. Send an error in place of the end
+		// that is too large (metadata included).
+		buffer.Reset()
+		_ = json.NewEncoder(buffer).Encode(&connectStreamEnd{
+			Error: connectErrorToWireError(asConnectError(bufferLimitError(int64(limit))), op.methodConf.resolver),
+		})
 	}
-	env := envelope{trailer: true, length: uint32(buffer.Len())} //nolint:gosec // Length is validated above.
+	env := envelope{trailer: true, length: uint32(buffer.Len())} //nolint:gosec // Length is bounded by the limit or the short error above.
 	envBytes := c.encodeEnvelope(env)
 	_, _ = writer.Write(envBytes[:])
 	_, _ = buffer.WriteTo(writer)
